@@ -18,6 +18,11 @@ G  (round 5) chromatic parameters x one object used at several wavelengths: Vect
    not first; every step against a fresh object, the closed form at that wavelength
    (out(d) = cos(d/2) out(0) + sin(d/2) out(pi); leak cos^2(d/2)), the nulling clause at the
    design wavelength, and the model's `chromRun` / `vvLeak` / `retarderJones` (op `vvrun`).
+H  (round 6) setter histories that change the KIND of a parameter on one used object (constant <->
+   function of wavelength, Field <-> scalar <-> function, None <-> element, int <-> float) for every
+   assignable coronagraph parameter, each use against the closed form / formula of the CURRENT
+   parameters and a fresh object; the model's `setRun` (op `vvset`).
+   Part F also runs on the real, unpatched Fourier objects (`_MSRealWorld`): their matrices inside the model.
 """
 import math
 import time
@@ -1260,7 +1265,7 @@ class _MSRealWorld:
         self.grids = list(grids)
         fft0 = hp.FastFourierTransform(pg, 2)
         if fft0.output_grid.size != grids[0].size:
-            raise MachineryError('real operators: level-0 FFT grid has %d points, the focal mask %d' % (fft0.output_grid.size, grids[0].size))
+            raise RuntimeError('level-0 FFT grid has %d points, the focal mask %d' % (fft0.output_grid.size, grids[0].size))
         self.F[0] = _opmatrix(lambda e: fft0.forward(hp.Field(e, pg)), pg.size)
         self.B[0] = _opmatrix(lambda v: fft0.backward(hp.Field(v, fft0.output_grid)), grids[0].size)
         for i in range(1, len(grids)):
@@ -1379,7 +1384,8 @@ def run_msalg_case(case):
         except MachineryError:
             raise
         except Exception as e:  # noqa
-            return None, bad + [('multiscale real-operators unreadable', 'reading the matrices of the real Fourier objects raised %s: %s' % (type(e).__name__, str(e)[:100]))]
+            # a fault while observing the implementation is a broken correspondence, not a violation
+            return {'unreadable': 'reading the matrices of the real Fourier objects raised %s: %s' % (type(e).__name__, str(e)[:100]), 'parts': [], 'L': 0}, bad
     L = len(masks_all)
     grids = world.grids[:L]
     if any(w != 1.0 for w in world.wavelengths):
@@ -1550,6 +1556,9 @@ def part_f(ctx):
             ctx.violation(key, what, case)
         ctx.count(('F:real-operators:kind:' if case.get('real') else 'F:kind:') + case['kind'])
         ctx.count('F:stop' if case['stop'] else 'F:no-stop')
+        if obs is not None and obs.get('unreadable'):
+            ctx.disagree('C09 real-operators', {'case': {k: case.get(k) for k in ('N', 'w', 's', 'q', 'kind', 'stop', 'seed')}, 'what': obs['unreadable']})
+            continue
         if obs is not None:
             ctx.count('F:levels:%d' % obs['L'])
             ctx.case({k: case.get(k) for k in ('N', 'w', 's', 'q', 'kind', 'stop', 'real')}, ('F', case['N'], case['w'], case['s'], case['q'], case['kind'], case['stop'], bool(case.get('real'))) if obs['L'] > 1 else None)
